@@ -1,11 +1,848 @@
-//! C13 — session and link lifecycles.  (work in progress: spin probe first)
+//! C13 — session and link lifecycles.  A real client (1..2 sessions, 0..3 links) against a
+//! scripted peer that answers handshakes, may withhold its answers for a while, and may end
+//! sessions / detach links on its own, with and without errors.  The frames the client writes
+//! are recorded event by event with virtual timestamps, together with the moment every local
+//! end / detach / close call returned and what it returned.
 
+use std::collections::BTreeMap;
+use std::sync::{Arc, Mutex};
 use std::time::Duration;
 
-use serde_json::json;
+use fe2o3_amqp::link::receiver::CreditMode;
+use fe2o3_amqp::link::sender::Sender;
+use fe2o3_amqp::link::delivery::Sendable;
+use fe2o3_amqp::session::SessionHandle;
+use fe2o3_amqp::{Connection, Receiver, Session};
+use fe2o3_amqp_types::definitions::{self, AmqpError, Handle, ReceiverSettleMode, Role};
+use fe2o3_amqp_types::messaging::Message;
+use fe2o3_amqp_types::performatives::{Attach, Begin, Close, Detach, End, Flow, Performative};
+use serde_amqp::Value;
+use serde_json::{json, Value as J};
+use tokio::sync::mpsc;
 
 use crate::common::*;
+use crate::peer::*;
 use crate::spinprobe::{probe, Wait};
+
+#[derive(Clone, Debug, PartialEq)]
+pub enum Ev {
+    /// local `Session::end` / `end_with_error`
+    SEnd(usize, bool),
+    SDrop(usize),
+    LDetach(usize),
+    LClose(usize),
+    LCloseErr(usize),
+    LDrop(usize),
+    /// a pre-settled send on a sender link / a short `recv` on a receiver link
+    LTouch(usize),
+    PEnd(usize, bool),
+    /// peer detaches link: closed?, with error?
+    PDetach(usize, bool, bool),
+    /// the peer stops / resumes answering detach and end (withheld answers are sent on resume)
+    Hold(bool),
+    /// the peer re-opens the session's incoming-window
+    PWindow(usize),
+    /// the peer sends a flow for a handle that is not attached (the session must end with an error, nothing else)
+    PBogus(usize),
+}
+
+impl Ev {
+    fn line(&self) -> String {
+        match self {
+            Ev::SEnd(s, e) => format!("send {} {}", s, *e as u8),
+            Ev::SDrop(s) => format!("sdrop {}", s),
+            Ev::LDetach(l) => format!("ldetach {}", l),
+            Ev::LClose(l) => format!("lclose {}", l),
+            Ev::LCloseErr(l) => format!("lcloseerr {}", l),
+            Ev::LDrop(l) => format!("ldrop {}", l),
+            Ev::LTouch(l) => format!("ltouch {}", l),
+            Ev::PEnd(s, e) => format!("pend {} {}", s, *e as u8),
+            Ev::PDetach(l, c, e) => format!("pdetach {} {} {}", l, *c as u8, *e as u8),
+            Ev::Hold(h) => format!("hold {}", *h as u8),
+            Ev::PWindow(s) => format!("pwindow {}", s),
+            Ev::PBogus(s) => format!("pbogus {}", s),
+        }
+    }
+    fn parse(s: &str) -> Option<Ev> {
+        let w: Vec<&str> = s.split(' ').collect();
+        let n = |i: usize| w.get(i).and_then(|x| x.parse::<usize>().ok());
+        Some(match w.first()? {
+            &"send" => Ev::SEnd(n(1)?, n(2)? == 1),
+            &"sdrop" => Ev::SDrop(n(1)?),
+            &"ldetach" => Ev::LDetach(n(1)?),
+            &"lclose" => Ev::LClose(n(1)?),
+            &"lcloseerr" => Ev::LCloseErr(n(1)?),
+            &"ldrop" => Ev::LDrop(n(1)?),
+            &"ltouch" => Ev::LTouch(n(1)?),
+            &"pend" => Ev::PEnd(n(1)?, n(2)? == 1),
+            &"pdetach" => Ev::PDetach(n(1)?, n(2)? == 1, n(3)? == 1),
+            &"hold" => Ev::Hold(n(1)? == 1),
+            &"pwindow" => Ev::PWindow(n(1)?),
+            &"pbogus" => Ev::PBogus(n(1)?),
+            _ => return None,
+        })
+    }
+}
+
+#[derive(Clone, Debug)]
+pub struct Case {
+    pub sessions: usize,
+    /// (session index, is sender)
+    pub links: Vec<(usize, bool)>,
+    pub events: Vec<Ev>,
+    /// let the peer's detach cross a local detach / close of the other kind (closing vs not); off for
+    /// generated cases: that path has a recorded finding and is exercised by fixed corpus cases only
+    pub allow_mismatch: bool,
+    /// incoming-window the peer grants at begin (and again at every `PWindow`)
+    pub window: u32,
+}
+
+impl Case {
+    pub fn to_json(&self) -> J {
+        json!({"sessions": self.sessions, "links": self.links.iter().map(|(s, r)| json!([s, r])).collect::<Vec<_>>(), "events": self.events.iter().map(|e| e.line()).collect::<Vec<_>>(), "allow_mismatch": self.allow_mismatch, "window": self.window})
+    }
+    pub fn from_json(j: &J) -> Option<Case> {
+        Some(Case {
+            sessions: j.get("sessions")?.as_u64()? as usize,
+            links: j.get("links")?.as_array()?.iter().filter_map(|x| Some((x.get(0)?.as_u64()? as usize, x.get(1)?.as_bool()?))).collect(),
+            events: j.get("events")?.as_array()?.iter().filter_map(|x| x.as_str().and_then(Ev::parse)).collect(),
+            allow_mismatch: j.get("allow_mismatch").and_then(|x| x.as_bool()).unwrap_or(false),
+            window: j.get("window").and_then(|x| x.as_u64()).unwrap_or(1000) as u32,
+        })
+    }
+}
+
+/// a frame written by the client, as the peer saw it
+#[derive(Clone, Debug, PartialEq)]
+pub struct Seen {
+    pub t_ms: u64,
+    pub ch: u16,
+    /// begin end attach detach transfer flow disposition close other
+    pub kind: &'static str,
+    pub handle: Option<u32>,
+    pub closed: bool,
+    pub error: bool,
+}
+
+enum Cmd {
+    End(u16, bool),
+    Detach(u16, u32, bool, bool),
+    Hold(bool),
+    Window(u16),
+    Bogus(u16),
+}
+
+#[derive(Clone, Debug, Default)]
+pub struct Observed {
+    /// index into `frames` at the start of every event (len = events + 1)
+    pub marks: Vec<usize>,
+    pub frames: Vec<Seen>,
+    /// local calls: (event index it was issued at, what, virtual ms it returned at or None, result)
+    pub calls: Vec<(usize, String, Option<u64>, String)>,
+    /// virtual time at the start of each event
+    pub t_event: Vec<u64>,
+    /// virtual times at which the peer sent its (possibly withheld) answers: (channel, handle or None for end, t)
+    pub answers: Vec<(u16, Option<u32>, u64)>,
+    /// final probes: ("connection" | "session <i>", ok?)
+    pub probes: Vec<(String, bool, String)>,
+    pub errors: Vec<String>,
+}
+
+type Log = Arc<Mutex<(Vec<Seen>, Vec<(u16, Option<u32>, u64)>)>>;
+
+fn amqp_err(s: &str) -> definitions::Error {
+    definitions::Error::new(AmqpError::InternalError, Some(s.to_string()), None)
+}
+
+/// the scripted peer: answers begin / attach at once; detach and end unless holding
+async fn peer_task(mut peer: Peer, mut cmds: mpsc::UnboundedReceiver<Cmd>, log: Log, start: tokio::time::Instant, window: u32) {
+    let mut transfers_seen: BTreeMap<u16, u32> = BTreeMap::new();
+    let now = |s: tokio::time::Instant| s.elapsed().as_millis() as u64;
+    if peer.accept_open(&PeerOpen::default()).await.is_err() {
+        return;
+    }
+    let mut holding = false;
+    let mut held: Vec<(u16, Performative)> = vec![];
+    // our own ends / detaches that await the client's answer: the client's frame is then a reply, not a request
+    let mut our_ends: Vec<u16> = vec![];
+    let mut our_detaches: Vec<(u16, u32)> = vec![];
+    peer.recv_timeout = Duration::from_secs(3600);
+    loop {
+        tokio::select! {
+            c = cmds.recv() => {
+                match c {
+                    None => break,
+                    Some(Cmd::End(ch, err)) => {
+                        if let Some(i) = held.iter().position(|(c, p)| *c == 10 + ch && matches!(p, Performative::End(_))) {
+                            // the client's end is already here: ours is the answer to it
+                            held.remove(i);
+                            log.lock().unwrap().1.push((ch, None, now(start)));
+                        } else {
+                            our_ends.push(ch);
+                        }
+                        // nothing is said about the links of a session that is being ended
+                        held.retain(|(c, _)| *c != 10 + ch);
+                        let _ = peer.send(10 + ch, Performative::End(End { error: if err { Some(amqp_err("peer-end")) } else { None } }), &[]).await;
+                    }
+                    Some(Cmd::Detach(ch, h, closed, err)) => {
+                        if let Some(i) = held.iter().position(|(c, p)| *c == 10 + ch && matches!(p, Performative::Detach(d) if d.handle.0 == 20 + h)) {
+                            held.remove(i);
+                            log.lock().unwrap().1.push((ch, Some(h), now(start)));
+                        } else {
+                            our_detaches.push((ch, h));
+                        }
+                        let _ = peer.send(10 + ch, Performative::Detach(Detach { handle: Handle(20 + h), closed, error: if err { Some(amqp_err("peer-detach")) } else { None } }), &[]).await;
+                    }
+                    Some(Cmd::Window(ch)) => {
+                        let f = Flow { next_incoming_id: Some(*transfers_seen.get(&ch).unwrap_or(&0)), incoming_window: 1000, next_outgoing_id: 0, outgoing_window: 1000, handle: None, delivery_count: None, link_credit: None, available: None, drain: false, echo: false, properties: None };
+                        let _ = peer.send(10 + ch, Performative::Flow(f), &[]).await;
+                    }
+                    Some(Cmd::Bogus(ch)) => {
+                        let f = Flow { next_incoming_id: Some(0), incoming_window: 1000, next_outgoing_id: 0, outgoing_window: 1000, handle: Some(Handle(99)), delivery_count: Some(0), link_credit: Some(1), available: None, drain: false, echo: false, properties: None };
+                        let _ = peer.send(10 + ch, Performative::Flow(f), &[]).await;
+                    }
+                    Some(Cmd::Hold(h)) => {
+                        holding = h;
+                        if !h {
+                            for (ch, p) in held.drain(..) {
+                                let hd = match &p { Performative::Detach(d) => Some(d.handle.0 - 20), _ => None };
+                                log.lock().unwrap().1.push((ch - 10, hd, now(start)));
+                                let _ = peer.send(ch, p, &[]).await;
+                            }
+                        }
+                    }
+                }
+            }
+            r = peer.recv() => {
+                match r {
+                    Ok(Incoming::Frame { channel, performative, .. }) => {
+                        let mut seen = Seen { t_ms: now(start), ch: channel, kind: "other", handle: None, closed: false, error: false };
+                        match &performative {
+                            Performative::Begin(_) => {
+                                seen.kind = "begin";
+                                let b = Begin { remote_channel: Some(channel), next_outgoing_id: 0, incoming_window: window, outgoing_window: 1000, handle_max: Handle(100), offered_capabilities: None, desired_capabilities: None, properties: None };
+                                let _ = peer.send(10 + channel, Performative::Begin(b), &[]).await;
+                            }
+                            Performative::Attach(a) => {
+                                seen.kind = "attach";
+                                seen.handle = Some(a.handle.0);
+                                let sender = matches!(a.role, Role::Sender);
+                                let ours = Attach {
+                                    name: a.name.clone(), handle: Handle(20 + a.handle.0), role: if sender { Role::Receiver } else { Role::Sender },
+                                    snd_settle_mode: a.snd_settle_mode.clone(), rcv_settle_mode: ReceiverSettleMode::First,
+                                    source: a.source.clone(), target: a.target.clone(), unsettled: None, incomplete_unsettled: false,
+                                    initial_delivery_count: if sender { None } else { Some(0) }, max_message_size: None,
+                                    offered_capabilities: None, desired_capabilities: None, properties: None };
+                                let _ = peer.send(10 + channel, Performative::Attach(ours), &[]).await;
+                                if sender {
+                                    let f = Flow { next_incoming_id: Some(*transfers_seen.get(&channel).unwrap_or(&0)), incoming_window: window.saturating_sub(0), next_outgoing_id: 0, outgoing_window: 1000, handle: Some(Handle(20 + a.handle.0)), delivery_count: Some(a.initial_delivery_count.unwrap_or(0)), link_credit: Some(100), available: None, drain: false, echo: false, properties: None };
+                                    let _ = peer.send(10 + channel, Performative::Flow(f), &[]).await;
+                                }
+                            }
+                            Performative::Detach(d) => {
+                                seen.kind = "detach";
+                                seen.handle = Some(d.handle.0);
+                                seen.closed = d.closed;
+                                seen.error = d.error.is_some();
+                                if let Some(i) = our_detaches.iter().position(|x| *x == (channel, d.handle.0)) {
+                                    our_detaches.remove(i); // the client's answer to our detach
+                                } else {
+                                    let reply = Performative::Detach(Detach { handle: Handle(20 + d.handle.0), closed: d.closed, error: None });
+                                    if holding {
+                                        held.push((10 + channel, reply));
+                                    } else {
+                                        log.lock().unwrap().1.push((channel, Some(d.handle.0), now(start)));
+                                        let _ = peer.send(10 + channel, reply, &[]).await;
+                                    }
+                                }
+                            }
+                            Performative::End(e) => {
+                                seen.kind = "end";
+                                seen.error = e.error.is_some();
+                                held.retain(|(c, p)| !(*c == 10 + channel && matches!(p, Performative::Detach(_))));
+                                if let Some(i) = our_ends.iter().position(|x| *x == channel) {
+                                    our_ends.remove(i);
+                                } else {
+                                    let reply = Performative::End(End { error: None });
+                                    if holding {
+                                        held.push((10 + channel, reply));
+                                    } else {
+                                        log.lock().unwrap().1.push((channel, None, now(start)));
+                                        let _ = peer.send(10 + channel, reply, &[]).await;
+                                    }
+                                }
+                            }
+                            Performative::Transfer(t) => {
+                                *transfers_seen.entry(channel).or_insert(0) += 1;
+                                seen.kind = "transfer";
+                                seen.handle = Some(t.handle.0);
+                            }
+                            Performative::Flow(f) => {
+                                seen.kind = "flow";
+                                seen.handle = f.handle.as_ref().map(|h| h.0);
+                            }
+                            Performative::Disposition(_) => seen.kind = "disposition",
+                            Performative::Close(c) => {
+                                seen.kind = "close";
+                                seen.error = c.error.is_some();
+                                log.lock().unwrap().0.push(seen);
+                                let _ = peer.send(0, Performative::Close(Close { error: None }), &[]).await;
+                                continue;
+                            }
+                            Performative::Open(_) => seen.kind = "open",
+                        }
+                        log.lock().unwrap().0.push(seen);
+                    }
+                    Ok(Incoming::Empty { .. }) => {}
+                    Err(_) => break,
+                }
+            }
+        }
+    }
+}
+
+enum Link {
+    S(Sender),
+    R(Receiver),
+}
+
+pub fn run(case: &Case) -> Observed {
+    let rt = paused_runtime();
+    let case = case.clone();
+    rt.block_on(async move {
+        let mut obs = Observed::default();
+        let start = tokio::time::Instant::now();
+        let now = move || start.elapsed().as_millis() as u64;
+        let (cio, pio) = tokio::io::duplex(1 << 18);
+        let log: Log = Arc::new(Mutex::new((vec![], vec![])));
+        let (ctx, crx) = mpsc::unbounded_channel();
+        let ptask = tokio::spawn(peer_task(Peer::new(pio), crx, log.clone(), start, case.window));
+        let mut conn = match Connection::builder().container_id("c13").open_with_stream(cio).await {
+            Ok(c) => c,
+            Err(e) => {
+                obs.errors.push(format!("open: {:?}", e));
+                return obs;
+            }
+        };
+        let mut sessions: Vec<Option<SessionHandle<()>>> = vec![];
+        let mut session_ch: Vec<u16> = vec![];
+        for i in 0..case.sessions {
+            match Session::begin(&mut conn).await {
+                Ok(s) => {
+                    sessions.push(Some(s));
+                    session_ch.push(i as u16);
+                }
+                Err(e) => {
+                    obs.errors.push(format!("begin: {:?}", e));
+                    return obs;
+                }
+            }
+        }
+        let mut links: Vec<Option<Link>> = vec![];
+        // handle of each link within its session: allocation order per session
+        let mut link_handle: Vec<u32> = vec![];
+        let mut per_session_count = vec![0u32; case.sessions];
+        for (i, (s, is_sender)) in case.links.iter().enumerate() {
+            let sh = sessions[*s].as_mut().unwrap();
+            let l = if *is_sender {
+                Sender::builder().name(format!("l{}", i)).target("q").attach(sh).await.map(Link::S).map_err(|e| format!("{:?}", e))
+            } else {
+                Receiver::builder().name(format!("l{}", i)).source("q").credit_mode(CreditMode::Manual).attach(sh).await.map(Link::R).map_err(|e| format!("{:?}", e))
+            };
+            match l {
+                Ok(l) => links.push(Some(l)),
+                Err(e) => {
+                    obs.errors.push(format!("attach: {}", e));
+                    return obs;
+                }
+            }
+            link_handle.push(per_session_count[*s]);
+            per_session_count[*s] += 1;
+        }
+        tokio::time::sleep(Duration::from_millis(20)).await;
+        type CallResult = (usize, String, Option<u64>, String);
+        let calls: Arc<Mutex<Vec<CallResult>>> = Arc::new(Mutex::new(vec![]));
+        let mut tasks = vec![];
+        // what the peer knows to be gone (it only speaks about what is still there)
+        let mut sess_gone = vec![false; case.sessions];
+        let mut link_gone = vec![false; case.links.len()];
+        // local end / detach sent while the peer withholds its answer: the peer's own end / detach then crosses it
+        let mut holding = false;
+        let mut sess_pending = vec![false; case.sessions];
+        let mut link_pending = vec![false; case.links.len()];
+        let mut link_pending_closing = vec![false; case.links.len()];
+        for (i, ev) in case.events.iter().enumerate() {
+            obs.marks.push(log.lock().unwrap().0.len());
+            obs.t_event.push(now());
+            match ev {
+                Ev::SEnd(s, err) => {
+                    if let Some(mut sh) = sessions.get_mut(*s).and_then(|x| x.take()) {
+                        let idx = {
+                            let mut c = calls.lock().unwrap();
+                            c.push((i, format!("end session {}", s), None, "pending".into()));
+                            c.len() - 1
+                        };
+                        let calls2 = calls.clone();
+                        let err = *err;
+                        tasks.push(tokio::spawn(async move {
+                            let r = if err { sh.end_with_error(amqp_err("local-end")).await } else { sh.end().await };
+                            let mut c = calls2.lock().unwrap();
+                            c[idx].2 = Some(start.elapsed().as_millis() as u64);
+                            c[idx].3 = match r {
+                                Ok(()) => "ok".into(),
+                                Err(e) => format!("{:?}", e).split('(').next().unwrap_or("").to_string(),
+                            };
+                        }));
+                    }
+                }
+                Ev::SDrop(s) => {
+                    if let Some(x) = sessions.get_mut(*s) {
+                        x.take();
+                    }
+                }
+                Ev::LDetach(l) | Ev::LClose(l) | Ev::LCloseErr(l) => {
+                    if let Some(link) = links.get_mut(*l).and_then(|x| x.take()) {
+                        let what = match ev {
+                            Ev::LDetach(_) => "detach",
+                            Ev::LClose(_) => "close",
+                            _ => "closeerr",
+                        };
+                        let idx = {
+                            let mut c = calls.lock().unwrap();
+                            c.push((i, format!("{} link {}", what, l), None, "pending".into()));
+                            c.len() - 1
+                        };
+                        let calls2 = calls.clone();
+                        tasks.push(tokio::spawn(async move {
+                            let r: Result<(), String> = match (link, what) {
+                                (Link::S(s), "detach") => s.detach().await.map(|_| ()).map_err(|(_, e)| format!("{:?}", e)),
+                                (Link::S(s), "close") => s.close().await.map_err(|e| format!("{:?}", e)),
+                                (Link::S(s), _) => s.close_with_error(amqp_err("local-close")).await.map_err(|e| format!("{:?}", e)),
+                                (Link::R(r), "detach") => r.detach().await.map(|_| ()).map_err(|(_, e)| format!("{:?}", e)),
+                                (Link::R(r), "close") => r.close().await.map_err(|e| format!("{:?}", e)),
+                                (Link::R(r), _) => r.close_with_error(amqp_err("local-close")).await.map_err(|e| format!("{:?}", e)),
+                            };
+                            let mut c = calls2.lock().unwrap();
+                            c[idx].2 = Some(start.elapsed().as_millis() as u64);
+                            c[idx].3 = match r {
+                                Ok(()) => "ok".into(),
+                                Err(e) => e.split('(').next().unwrap_or("").to_string(),
+                            };
+                        }));
+                    }
+                }
+                Ev::LDrop(l) => {
+                    if let Some(x) = links.get_mut(*l) {
+                        x.take();
+                    }
+                }
+                Ev::LTouch(l) => {
+                    if let Some(Some(link)) = links.get_mut(*l) {
+                        match link {
+                            Link::S(s) => {
+                                let sendable = Sendable::builder().message(Message::from(Value::Bool(true))).settled(true).build();
+                                let _ = tokio::time::timeout(Duration::from_millis(10), s.send(sendable)).await;
+                            }
+                            Link::R(r) => {
+                                let _ = tokio::time::timeout(Duration::from_millis(10), r.recv::<Value>()).await;
+                            }
+                        }
+                    }
+                }
+                Ev::PEnd(s, err) => {
+                    if let Some(ch) = session_ch.get(*s) {
+                        if !sess_gone[*s] || sess_pending[*s] {
+                            sess_pending[*s] = false;
+                            let _ = ctx.send(Cmd::End(*ch, *err));
+                        }
+                    }
+                }
+                Ev::PDetach(l, closed, err) => {
+                    if let Some((s, _)) = case.links.get(*l) {
+                        // frames the peer has in flight while it has not yet answered (or seen) the session's end are legal
+                        if (!sess_gone[*s] && !link_gone[*l]) || (link_pending[*l] && !sess_gone[*s]) || (sess_pending[*s] && !link_gone[*l]) {
+                            // a crossing detach is of the same kind as the local one unless the case says otherwise
+                            let closed = if link_pending[*l] && !case.allow_mismatch { link_pending_closing[*l] } else { *closed };
+                            link_pending[*l] = false;
+                            let _ = ctx.send(Cmd::Detach(session_ch[*s], link_handle[*l], closed, *err));
+                        }
+                    }
+                }
+                Ev::Hold(h) => {
+                    let _ = ctx.send(Cmd::Hold(*h));
+                }
+                Ev::PWindow(s) => {
+                    if let Some(ch) = session_ch.get(*s) {
+                        if !sess_gone[*s] {
+                            let _ = ctx.send(Cmd::Window(*ch));
+                        }
+                    }
+                }
+                Ev::PBogus(s) => {
+                    if let Some(ch) = session_ch.get(*s) {
+                        // also while the session's end (provoked by an earlier one) is not yet answered
+                        if !sess_gone[*s] || sess_pending[*s] {
+                            let _ = ctx.send(Cmd::Bogus(*ch));
+                        }
+                    }
+                }
+            }
+            match ev {
+                Ev::Hold(h) => {
+                    holding = *h;
+                    if !holding {
+                        sess_pending.iter_mut().for_each(|x| *x = false);
+                        link_pending.iter_mut().for_each(|x| *x = false);
+                    }
+                }
+                Ev::SEnd(s, _) | Ev::PBogus(s) if *s < case.sessions && holding && !sess_gone[*s] => {
+                    sess_pending[*s] = true;
+                    sess_gone[*s] = true;
+                }
+                Ev::PBogus(s) if *s < case.sessions => sess_gone[*s] = true,
+                Ev::LDetach(l) | Ev::LClose(l) | Ev::LCloseErr(l) if *l < case.links.len() && holding && !link_gone[*l] && !sess_gone[case.links[*l].0] => {
+                    link_pending[*l] = true;
+                    link_pending_closing[*l] = !matches!(ev, Ev::LDetach(_));
+                    link_gone[*l] = true;
+                }
+                Ev::SEnd(s, _) | Ev::SDrop(s) | Ev::PEnd(s, _) => {
+                    if *s < case.sessions {
+                        sess_gone[*s] = true;
+                    }
+                }
+                Ev::LDetach(l) | Ev::LClose(l) | Ev::LCloseErr(l) | Ev::LDrop(l) | Ev::PDetach(l, _, _) => {
+                    if *l < case.links.len() {
+                        link_gone[*l] = true;
+                    }
+                }
+                _ => {}
+            }
+            tokio::time::sleep(Duration::from_millis(50)).await;
+        }
+        obs.marks.push(log.lock().unwrap().0.len());
+        obs.t_event.push(now());
+        let _ = ctx.send(Cmd::Hold(false));
+        tokio::time::sleep(Duration::from_millis(50)).await;
+        // probes: is everything that should be alive still usable?
+        for (i, s) in sessions.iter_mut().enumerate() {
+            if let Some(sh) = s.as_mut() {
+                let r = tokio::time::timeout(Duration::from_millis(200), async {
+                    let mut snd = Sender::builder().name(format!("probe{}", i)).target("q").attach(sh).await.map_err(|e| format!("attach: {:?}", e))?;
+                    let sendable = Sendable::builder().message(Message::from(Value::Bool(true))).settled(true).build();
+                    snd.send(sendable).await.map_err(|e| format!("send: {:?}", e))?;
+                    snd.close().await.map_err(|e| format!("close: {:?}", e))?;
+                    Ok::<(), String>(())
+                })
+                .await;
+                let (ok, why) = match r {
+                    Ok(Ok(())) => (true, String::new()),
+                    Ok(Err(e)) => (false, e),
+                    Err(_) => (false, "timeout".into()),
+                };
+                obs.probes.push((format!("session {}", i), ok, why));
+            }
+        }
+        {
+            let r = tokio::time::timeout(Duration::from_millis(200), async {
+                let mut s = Session::begin(&mut conn).await.map_err(|e| format!("begin: {:?}", e))?;
+                s.end().await.map_err(|e| format!("end: {:?}", e))?;
+                Ok::<(), String>(())
+            })
+            .await;
+            let (ok, why) = match r {
+                Ok(Ok(())) => (true, String::new()),
+                Ok(Err(e)) => (false, e),
+                Err(_) => (false, "timeout".into()),
+            };
+            obs.probes.push(("connection".into(), ok, why));
+        }
+        drop(links);
+        drop(sessions);
+        let _ = tokio::time::timeout(Duration::from_millis(200), conn.close()).await;
+        drop(ctx);
+        for t in tasks {
+            t.abort();
+        }
+        ptask.abort();
+        obs.calls = calls.lock().unwrap().clone();
+        let l = log.lock().unwrap();
+        obs.frames = l.0.clone();
+        obs.answers = l.1.clone();
+        obs
+    })
+}
+
+pub fn check(case: &Case, obs: &Observed) -> Option<(String, String)> {
+    if let Some(e) = obs.errors.first() {
+        return Some(("scenario-failed".into(), e.clone()));
+    }
+    let n_ev = case.events.len();
+    // O1 / O2: per channel and per handle
+    let mut ch_state: BTreeMap<u16, u8> = BTreeMap::new(); // 1 begun, 2 ended
+    let mut h_state: BTreeMap<(u16, u32), u8> = BTreeMap::new(); // 1 attached, 2 detached
+    for (i, f) in obs.frames.iter().enumerate() {
+        if f.kind == "close" || f.kind == "open" {
+            continue;
+        }
+        let cs = ch_state.get(&f.ch).copied().unwrap_or(0);
+        match f.kind {
+            "begin" => {
+                if cs == 1 {
+                    return Some(("begin-twice".into(), format!("frame {}: second begin on channel {}", i, f.ch)));
+                }
+                ch_state.insert(f.ch, 1);
+                h_state.retain(|k, _| k.0 != f.ch);
+            }
+            "end" => {
+                if cs != 1 {
+                    return Some(("end-twice".into(), format!("frame {}: end on channel {} which is {}", i, f.ch, if cs == 2 { "already ended" } else { "not begun" })));
+                }
+                ch_state.insert(f.ch, 2);
+            }
+            _ => {
+                if cs != 1 {
+                    return Some(("frame-after-end".into(), format!("frame {}: {} on channel {} after the session's end (t={} ms)", i, f.kind, f.ch, f.t_ms)));
+                }
+                if let Some(h) = f.handle {
+                    let hs = h_state.get(&(f.ch, h)).copied().unwrap_or(0);
+                    match f.kind {
+                        "attach" => {
+                            if hs == 1 {
+                                return Some(("attach-twice".into(), format!("frame {}: handle {} on channel {}", i, h, f.ch)));
+                            }
+                            h_state.insert((f.ch, h), 1);
+                        }
+                        "detach" => {
+                            if hs != 1 {
+                                return Some((if case.allow_mismatch { "detach-twice:crossing-close-and-detach-of-different-kind".to_string() } else { "detach-twice".to_string() }, format!("frame {}: detach for handle {} on channel {} which is {}", i, h, f.ch, if hs == 2 { "already detached" } else { "not attached" })));
+                            }
+                            h_state.insert((f.ch, h), 2);
+                        }
+                        _ => {
+                            if hs != 1 {
+                                // were these transfers handed to the session before the detach and held back by its window?
+                                let detach_at = obs.frames[..i].iter().rposition(|g| g.kind == "detach" && g.ch == f.ch && g.handle == Some(h)).unwrap_or(0);
+                                let seen_before = obs.frames[..detach_at].iter().filter(|g| g.kind == "transfer" && g.ch == f.ch && g.handle == Some(h)).count();
+                                let detach_ev = obs.marks.iter().rposition(|m| *m <= detach_at).unwrap_or(0);
+                                let mut cnt = vec![0u32; case.sessions];
+                                let mut sent_before = 0usize;
+                                let mut target: Option<usize> = None;
+                                for (l, (s, _)) in case.links.iter().enumerate() {
+                                    if *s as u16 == f.ch && cnt[*s] == h {
+                                        target = Some(l);
+                                    }
+                                    cnt[*s] += 1;
+                                }
+                                if let Some(l) = target {
+                                    sent_before = case.events.iter().take(detach_ev + 1).filter(|e| matches!(e, Ev::LTouch(x) if *x == l)).count();
+                                }
+                                let class = if f.kind == "transfer" && sent_before > seen_before { "window-held-transfers-overtaken-by-detach" } else { "other" };
+                                return Some((format!("frame-after-detach:{}", class), format!("frame {}: {} for handle {} on channel {} after its detach (t={} ms); {} sends had been issued before the detach, {} transfers had gone out", i, f.kind, h, f.ch, f.t_ms, sent_before, seen_before)));
+                            }
+                        }
+                    }
+                }
+            }
+        }
+    }
+    // per event obligations
+    let mut sess_ended_by_client: Vec<bool> = vec![false; case.sessions];
+    let mut sess_dead: Vec<bool> = vec![false; case.sessions]; // ended by either side or dropped
+    let mut link_gone: Vec<bool> = vec![false; case.links.len()];
+    let mut link_handle: Vec<u32> = vec![];
+    let mut cnt = vec![0u32; case.sessions];
+    for (s, _) in &case.links {
+        link_handle.push(cnt[*s]);
+        cnt[*s] += 1;
+    }
+    let mut holding = false;
+    for i in 0..n_ev {
+        let window = &obs.frames[obs.marks[i]..obs.marks[i + 1]];
+        match &case.events[i] {
+            Ev::Hold(h) => holding = *h,
+            Ev::PEnd(s, _) if *s < case.sessions && !sess_dead[*s] => {
+                let ch = *s as u16;
+                if !window.iter().any(|f| f.kind == "end" && f.ch == ch) {
+                    return Some(("peer-end-not-answered".into(), format!("event {}: the peer ended the session on channel {}; the client wrote {:?}", i, ch, window.iter().map(|f| format!("{}@{}", f.kind, f.ch)).collect::<Vec<_>>())));
+                }
+                sess_dead[*s] = true;
+                for (l, (ls, _)) in case.links.iter().enumerate() {
+                    if ls == s {
+                        link_gone[l] = true;
+                    }
+                }
+            }
+            Ev::PDetach(l, closed, _) if *l < case.links.len() && !link_gone[*l] && !sess_dead[case.links[*l].0] => {
+                // answered in kind no later than the application's next operation on the link: the next event that
+                // touches the link (or the end of the script, where the handle is dropped)
+                let (s, _) = case.links[*l];
+                let h = link_handle[*l];
+                let mut upto = n_ev;
+                let mut touched = false;
+                for j in (i + 1)..n_ev {
+                    let touches = matches!(&case.events[j], Ev::LTouch(x) | Ev::LDetach(x) | Ev::LClose(x) | Ev::LCloseErr(x) | Ev::LDrop(x) if x == l) || matches!(&case.events[j], Ev::SEnd(x, _) | Ev::SDrop(x) | Ev::PEnd(x, _) | Ev::PBogus(x) if *x == s);
+                    if touches {
+                        upto = j + 1;
+                        touched = true;
+                        break;
+                    }
+                }
+                let w = &obs.frames[obs.marks[i]..obs.marks[upto.min(n_ev)]];
+                let session_went = (i + 1..upto.min(n_ev)).any(|j| matches!(&case.events[j], Ev::SEnd(x, _) | Ev::SDrop(x) | Ev::PEnd(x, _) | Ev::PBogus(x) if *x == s));
+                let answer = w.iter().find(|f| f.kind == "detach" && f.ch == s as u16 && f.handle == Some(h));
+                match answer {
+                    Some(f) => {
+                        // answered in kind: a closing detach is answered by a closing detach
+                        if *closed && !f.closed {
+                            return Some(("detach-not-answered-in-kind".into(), format!("event {}: the peer closed link {}; the client answered with closed={}", i, l, f.closed)));
+                        }
+                    }
+                    None => {
+                        if touched && !session_went {
+                            return Some(("peer-detach-not-answered".into(), format!("event {}: the peer detached link {} (closed={}); no detach from the client by the end of its next operation on the link (event {})", i, l, closed, upto - 1)));
+                        }
+                    }
+                }
+                link_gone[*l] = true;
+            }
+            Ev::SEnd(s, _) if *s < case.sessions => {
+                if !sess_dead[*s] {
+                    sess_ended_by_client[*s] = true;
+                }
+                sess_dead[*s] = true;
+                for (l, (ls, _)) in case.links.iter().enumerate() {
+                    if ls == s {
+                        link_gone[l] = true;
+                    }
+                }
+            }
+            Ev::PBogus(s) if *s < case.sessions && !sess_dead[*s] => {
+                let ch = *s as u16;
+                if !window.iter().any(|f| f.kind == "end" && f.ch == ch && f.error) {
+                    return Some(("illegal-frame-not-refused-by-session".into(), format!("event {}: a flow for an unattached handle on channel {} was followed by {:?}, expected an end with an error", i, ch, window.iter().map(|f| format!("{}@{}", f.kind, f.ch)).collect::<Vec<_>>())));
+                }
+                sess_dead[*s] = true;
+                for (l, (ls, _)) in case.links.iter().enumerate() {
+                    if ls == s {
+                        link_gone[l] = true;
+                    }
+                }
+            }
+            Ev::SDrop(s) if *s < case.sessions => {
+                sess_dead[*s] = true;
+                for (l, (ls, _)) in case.links.iter().enumerate() {
+                    if ls == s {
+                        link_gone[l] = true;
+                    }
+                }
+            }
+            Ev::LDetach(l) | Ev::LClose(l) | Ev::LCloseErr(l) | Ev::LDrop(l) if *l < case.links.len() => link_gone[*l] = true,
+            _ => {}
+        }
+        let _ = holding;
+    }
+    // O5: a local end / detach / close returns only after the peer's answer (or a definite failure)
+    for (ev_i, what, ret, res) in &obs.calls {
+        // when did the peer answer this request?
+        let (ch, h): (u16, Option<u32>) = match &case.events[*ev_i] {
+            Ev::SEnd(s, _) => (*s as u16, None),
+            Ev::LDetach(l) | Ev::LClose(l) | Ev::LCloseErr(l) => (case.links[*l].0 as u16, Some(link_handle[*l])),
+            _ => continue,
+        };
+        let t0 = obs.t_event[*ev_i];
+        let t_end = obs.t_event[n_ev];
+        let answered = obs.answers.iter().filter(|a| a.0 == ch && a.1 == h && a.2 >= t0 && a.2 < t_end).map(|a| a.2).min();
+        if let (Some(r), "ok") = (ret, res.as_str()) {
+            match answered {
+                Some(a) if *r + 1 < a => return Some(("returned-before-peer-answered".into(), format!("{} (event {}) returned Ok at t={} ms, the peer's answer was sent at t={} ms", what, ev_i, r, a))),
+                _ => {}
+            }
+        }
+    }
+    // O6: errors carried by the peer's end / detach reach the caller
+    for (ev_i, what, _ret, res) in &obs.calls {
+        match &case.events[*ev_i] {
+            Ev::SEnd(s, _) => {
+                // the peer ended this session with an error earlier, and nothing else ended it before
+                let mut peer_err = None;
+                for j in 0..*ev_i {
+                    match &case.events[j] {
+                        Ev::PEnd(x, e) if x == s && peer_err.is_none() => peer_err = Some(*e),
+                        // the session had already ended on its own account: a later end from the peer is its answer
+                        Ev::PBogus(x) if x == s && peer_err.is_none() => peer_err = Some(false),
+                        _ => {}
+                    }
+                }
+                if peer_err == Some(true) && !res.contains("RemoteEndedWithError") {
+                    return Some(("peer-end-error-not-reported".into(), format!("{}: the peer had ended the session with an error; the call returned {}", what, res)));
+                }
+            }
+            Ev::LDetach(l) | Ev::LClose(l) | Ev::LCloseErr(l) => {
+                let mut peer = None;
+                for j in 0..*ev_i {
+                    match &case.events[j] {
+                        Ev::PDetach(x, c, e) if x == l && peer.is_none() => peer = Some((*c, *e)),
+                        Ev::LTouch(_) => {}
+                        _ => {}
+                    }
+                }
+                let s = case.links[*l].0;
+                let session_untouched = !(0..*ev_i).any(|j| matches!(&case.events[j], Ev::SEnd(x, _) | Ev::SDrop(x) | Ev::PEnd(x, _) | Ev::PBogus(x) if *x == s));
+                let touched_between = (0..*ev_i).any(|j| matches!(&case.events[j], Ev::LTouch(x) if x == l));
+                if let Some((_, true)) = peer {
+                    if session_untouched && !touched_between && !(res.contains("WithError")) {
+                        return Some(("peer-detach-error-not-reported".into(), format!("{}: the peer had detached the link with an error; the call returned {}", what, res)));
+                    }
+                }
+            }
+            _ => {}
+        }
+    }
+    // O7: nothing above the ended / dropped thing is torn down
+    let conn_should_live = true;
+    for (name, ok, why) in &obs.probes {
+        if name == "connection" && conn_should_live && !ok {
+            return Some(("connection-torn-down".into(), format!("after the script the connection cannot begin a session any more: {}", why)));
+        }
+        if let Some(i) = name.strip_prefix("session ").and_then(|x| x.parse::<usize>().ok()) {
+            if !sess_dead[i] && !ok {
+                return Some(("session-torn-down".into(), format!("session {} was neither ended nor dropped, yet a new link on it fails: {}", i, why)));
+            }
+        }
+    }
+    let _ = sess_ended_by_client;
+    None
+}
+
+pub fn gen_case(rng: &mut Rng) -> Case {
+    let sessions = *rng.pick(&[1usize, 1, 2]);
+    let nl = rng.below(4) as usize;
+    let links: Vec<(usize, bool)> = (0..nl).map(|_| (rng.below(sessions as u64) as usize, rng.chance(1, 2))).collect();
+    let n = rng.range(1, 7);
+    let mut events = vec![];
+    for _ in 0..n {
+        let l = if nl > 0 { rng.below(nl as u64) as usize } else { 0 };
+        let s = rng.below(sessions as u64) as usize;
+        let ev = match rng.below(16) {
+            0 => Ev::SEnd(s, rng.chance(1, 3)),
+            1 => Ev::SDrop(s),
+            2 if nl > 0 => Ev::LDetach(l),
+            3 if nl > 0 => Ev::LClose(l),
+            4 if nl > 0 => Ev::LCloseErr(l),
+            5 if nl > 0 => Ev::LDrop(l),
+            6 | 7 if nl > 0 => Ev::LTouch(l),
+            8 => Ev::PEnd(s, rng.chance(1, 2)),
+            9 | 10 if nl > 0 => Ev::PDetach(l, rng.chance(1, 2), rng.chance(1, 2)),
+            11 => Ev::Hold(true),
+            12 => Ev::Hold(false),
+            13 => Ev::PWindow(s),
+            14 => Ev::PBogus(s),
+            _ => Ev::SEnd(s, false),
+        };
+        events.push(ev);
+    }
+    Case { sessions, links, events, allow_mismatch: false, window: *rng.pick(&[1000u32, 1000, 1000, 1, 2]) }
+}
 
 pub fn spin_checks(report: &mut Report, property: &str) {
     for which in [Wait::SessionEnd, Wait::ConnectionClose] {
@@ -34,11 +871,297 @@ pub fn spin_checks(report: &mut Report, property: &str) {
 }
 
 pub fn main(opts: &Opts) {
-    let mut report = Report::new("C13", "lifecycle scenarios against a scripted peer");
+    let mut report = Report::new(
+        "C13",
+        "a client with 1..2 sessions and 0..3 links (senders and receivers) against a scripted peer; 1..7 events from: local end / \
+         end-with-error / drop of a session, local detach / close / close-with-error / drop / use of a link, the peer ending a session or \
+         detaching / closing a link with or without error, the peer withholding and releasing its answers; afterwards every surviving \
+         session and the connection are probed; plus two real-time busy-wait probes; non-trivial = at least one end or detach was exchanged; \
+         distinct by hash of the case",
+    );
+    if let Some(path) = &opts.replay {
+        let j: J = serde_json::from_str(&std::fs::read_to_string(path).expect("read")).expect("json");
+        if let Some(case) = j.get("case").and_then(Case::from_json) {
+            let obs = run(&case);
+            for (i, f) in obs.frames.iter().enumerate() {
+                let ev = obs.marks.iter().rposition(|m| *m <= i).unwrap_or(0);
+                println!("[ev {}] t={} ch{} {} handle={:?} closed={} error={}", ev as i64 - 0, f.t_ms, f.ch, f.kind, f.handle, f.closed, f.error);
+            }
+            println!("calls {:?}\nanswers {:?}\nprobes {:?}\nerrors {:?}", obs.calls, obs.answers, obs.probes, obs.errors);
+            match check(&case, &obs) {
+                Some((k, d)) => {
+                    println!("REPLAY: property violated [{}]: {}", k, d);
+                    std::process::exit(1);
+                }
+                None => {
+                    println!("REPLAY: property holds on this scenario");
+                    std::process::exit(0);
+                }
+            }
+        }
+        if j.get("spin").is_some() {
+            let mut r = Report::new("C13", "");
+            spin_checks(&mut r, "C13");
+            for f in &r.findings {
+                println!("REPLAY: property violated [{}]: {}", f.key, f.description);
+            }
+            std::process::exit(if r.findings.is_empty() { 0 } else { 1 });
+        }
+        std::process::exit(2);
+    }
     spin_checks(&mut report, "C13");
+    let mut rng = Rng::new(opts.seed ^ 0xc13);
+    let mut corpus: Vec<Case> = vec![];
+    if let Ok(rd) = std::fs::read_dir("/verif/corpus/C13") {
+        let mut paths: Vec<_> = rd.filter_map(|e| e.ok().map(|e| e.path())).collect();
+        paths.sort();
+        for p in paths {
+            if let Ok(txt) = std::fs::read_to_string(&p) {
+                if let Ok(j) = serde_json::from_str::<J>(&txt) {
+                    if let Some(c) = j.get("case").and_then(Case::from_json) {
+                        corpus.push(c);
+                    }
+                }
+            }
+        }
+    }
+    report.count_n("corpus_cases", corpus.len() as u64);
+    let n = if opts.thorough() { 20000 } else { 1500 };
+    for k in 0..(n + corpus.len() as u64) {
+        let case = if (k as usize) < corpus.len() { corpus[k as usize].clone() } else { gen_case(&mut rng) };
+        let obs = run(&case);
+        report.evaluations += 1;
+        if obs.frames.iter().any(|f| f.kind == "end" || f.kind == "detach") {
+            report.nontrivial_case(fnv(&case.to_json().to_string()));
+        }
+        report.count_n("frames_seen", obs.frames.len() as u64);
+        report.count_n("local_calls", obs.calls.len() as u64);
+        if k % (n / 3).max(1) == 0 {
+            report.sample(case.to_json());
+        }
+        if let Some((key, desc)) = check(&case, &obs) {
+            let key0 = key.clone();
+            let evs = shrink_list(&case.events, &mut |e: &[Ev]| {
+                let c = Case { sessions: case.sessions, links: case.links.clone(), events: e.to_vec(), allow_mismatch: case.allow_mismatch, window: case.window };
+                let o = run(&c);
+                matches!(check(&c, &o), Some((k2, _)) if k2 == key0)
+            });
+            let best = Case { sessions: case.sessions, links: case.links.clone(), events: evs, allow_mismatch: case.allow_mismatch, window: case.window };
+            let o2 = run(&best);
+            let desc2 = check(&best, &o2).map(|x| x.1).unwrap_or(desc);
+            report.finding(Finding { kind: "violation", key, description: desc2, replay: json!({"property": "C13", "module": "life", "case": best.to_json()}) });
+        }
+    }
+    correspondence(&mut rng, opts, &mut report);
     report.write(&opts.report);
-    println!("life: {} cases, {} findings", report.evaluations, report.findings.len());
-    for f in &report.findings {
-        println!("  {} {}: {}", f.kind, f.key, f.description);
+    println!("life: {} cases, {} non-trivial, {} findings", report.evaluations, report.nontrivial.len(), report.findings.len());
+}
+
+/// the two hand-written compositions (session end handshake, link detach handshake) against the
+/// implementation, on scenarios small enough to be mapped one to one
+fn correspondence(rng: &mut Rng, opts: &Opts, report: &mut Report) {
+    if !driver_available() {
+        report.notes.push("model driver not available: correspondence skipped".into());
+        return;
+    }
+    let n = if opts.thorough() { 3000 } else { 300 };
+    let mut lines: Vec<String> = vec![];
+    let mut expect: Vec<(usize, Vec<String>, String, Case)> = vec![]; // (start, implementation per-line outputs, result, case)
+    // --- one session, no links
+    for _ in 0..n {
+        let mut events = vec![];
+        for _ in 0..rng.range(1, 5) {
+            events.push(match rng.below(5) {
+                0 => Ev::SEnd(0, rng.chance(1, 3)),
+                1 => Ev::PEnd(0, rng.chance(1, 2)),
+                2 => Ev::PBogus(0),
+                3 => Ev::Hold(true),
+                _ => Ev::Hold(false),
+            });
+        }
+        // at most one local end (the handle is consumed)
+        let mut seen_end = false;
+        events.retain(|e| match e {
+            Ev::SEnd(_, _) => {
+                let keep = !seen_end;
+                seen_end = true;
+                keep
+            }
+            _ => true,
+        });
+        let case = Case { sessions: 1, links: vec![], events, allow_mismatch: false, window: 1000 };
+        let obs = run(&case);
+        report.evaluations += 1;
+        if !obs.errors.is_empty() {
+            continue;
+        }
+        // the events as the session engine saw them: the peer's answers are placed where they were sent
+        let start = lines.len();
+        let mut imp: Vec<String> = vec![];
+        lines.push("E reset".into());
+        imp.push("ok".into());
+        let n_ev = case.events.len();
+        let mut gone = false; // the peer regards the session as over and says nothing more
+        let mut pending_reply = false; // the client's end awaits the peer's (withheld) answer
+        let mut holding = false;
+        for (i, ev) in case.events.iter().enumerate() {
+            let window: Vec<&Seen> = obs.frames[obs.marks[i]..obs.marks[i + 1]].iter().filter(|f| f.ch == 0).collect();
+            let ends: Vec<String> = window.iter().filter(|f| f.kind == "end").map(|f| format!("end:{}", f.error as u8)).collect();
+            let out = if ends.is_empty() { "-".to_string() } else { ends.join(" ") };
+            match ev {
+                Ev::SEnd(_, e) => {
+                    lines.push(format!("E ctlend {}", *e as u8));
+                    imp.push(out);
+                    if !gone {
+                        if holding {
+                            pending_reply = true;
+                        } else {
+                            lines.push("E peerend 0".into());
+                            imp.push("-".into());
+                        }
+                        gone = true;
+                    }
+                }
+                Ev::PEnd(_, e) => {
+                    if !gone || pending_reply {
+                        lines.push(format!("E peerend {}", *e as u8));
+                        imp.push(out);
+                        pending_reply = false;
+                        gone = true;
+                    }
+                }
+                Ev::PBogus(_) => {
+                    if !gone || pending_reply {
+                        let was_gone = gone;
+                        lines.push("E peerframe 0".into());
+                        imp.push(out);
+                        if !was_gone {
+                            // the session ends with an error; the peer answers that end
+                            if holding {
+                                pending_reply = true;
+                            } else {
+                                lines.push("E peerend 0".into());
+                                imp.push("-".into());
+                            }
+                            gone = true;
+                        }
+                    }
+                }
+                Ev::Hold(h) => {
+                    holding = *h;
+                    if !holding && pending_reply {
+                        lines.push("E peerend 0".into());
+                        imp.push(out);
+                        pending_reply = false;
+                    }
+                }
+                _ => {}
+            }
+        }
+        let _ = n_ev;
+        if pending_reply {
+            // released by the harness after the script
+            lines.push("E peerend 0".into());
+            imp.push("-".into());
+        }
+        lines.push("E result".into());
+        let res = match obs.calls.first() {
+            Some((_, _, Some(_), r)) => match r.as_str() {
+                "ok" => "ok".to_string(),
+                "RemoteEndedWithError" => "remoteEndedWithError".into(),
+                "RemoteEnded" => "remoteEnded".into(),
+                "IllegalState" => "illegalState".into(),
+                other => format!("other:{}", other),
+            },
+            _ => "nocall".to_string(),
+        };
+        imp.push(res.clone());
+        expect.push((start, imp, res, case));
+    }
+    let mut link_lines: Vec<String> = vec![];
+    let mut link_expect: Vec<(String, Case)> = vec![];
+    // --- one link: [peer detach] then detach / close
+    for _ in 0..n {
+        let is_sender = rng.chance(1, 2);
+        let pending = if rng.chance(1, 2) { Some((rng.chance(1, 2), rng.chance(1, 2))) } else { None };
+        let close = rng.chance(1, 2);
+        let mut events = vec![];
+        if let Some((c, e)) = pending {
+            events.push(Ev::PDetach(0, c, e));
+        }
+        events.push(if close { Ev::LClose(0) } else { Ev::LDetach(0) });
+        let case = Case { sessions: 1, links: vec![(0, is_sender)], events, allow_mismatch: false, window: 1000 };
+        let obs = run(&case);
+        report.evaluations += 1;
+        if !obs.errors.is_empty() {
+            continue;
+        }
+        let call_ev = case.events.len() - 1;
+        let sent: Vec<u8> = obs.frames[obs.marks[call_ev]..obs.marks[call_ev + 1]].iter().filter(|f| f.kind == "detach" && f.handle == Some(0)).map(|f| f.closed as u8).collect();
+        let res = match obs.calls.first() {
+            Some((_, _, Some(_), r)) => match r.as_str() {
+                "ok" => "ok",
+                "RemoteDetachedWithError" | "RemoteClosedWithError" => "remoteError",
+                "ClosedByRemote" => "closedByRemote",
+                "IllegalState" => "illegalState",
+                _ => "mismatch",
+            },
+            _ => "mismatch", // still busy re-attaching
+        };
+        // the scripted peer answers a detach in kind, without error
+        let line = match pending {
+            Some((c, e)) => format!("L call {} {} {} {} 0", if close { "close" } else { "detach" }, c as u8, e as u8, close as u8),
+            None => format!("L call {} - {} 0", if close { "close" } else { "detach" }, close as u8),
+        };
+        link_lines.push(line);
+        let first: Vec<u8> = sent.iter().take(1).cloned().collect();
+        link_expect.push((format!("{:?} {}", first, res).replace(' ', "").replace("]", "] "), case));
+    }
+    let mut all = lines.clone();
+    let off = all.len();
+    all.extend(link_lines.iter().cloned());
+    match run_driver(&all) {
+        Ok(model) => {
+            report.model_used = true;
+            report.model_lines += model.len() as u64;
+            let mut bad = 0u64;
+            for (k, (start, imp, _res, case)) in expect.iter().enumerate() {
+                let end = expect.get(k + 1).map(|x| x.0).unwrap_or(off);
+                let m = &model[*start..end];
+                // compare the end frames written per event and the result
+                let mut ok = m.len() == imp.len();
+                if ok {
+                    for (a, b) in m.iter().zip(imp.iter()) {
+                        let a2 = a.split(' ').filter(|t| t.starts_with("end:")).collect::<Vec<_>>().join(" ");
+                        let a2 = if a2.is_empty() && (a == "-" || a == "frame") { "-".to_string() } else if a2.is_empty() { a.clone() } else { a2 };
+                        if a2 != *b && !(b == "nocall") && !(b.starts_with("other")) {
+                            ok = false;
+                        }
+                    }
+                }
+                if !ok {
+                    if bad == 0 {
+                        report.finding(Finding { kind: "disagreement", key: "model-vs-implementation:session".into(), description: format!("implementation {:?} model {:?}", imp, m), replay: json!({"property": "C13", "module": "life", "case": case.to_json(), "model_lines": &all[*start..end], "model": m}) });
+                    }
+                    bad += 1;
+                }
+            }
+            for (k, (want, case)) in link_expect.iter().enumerate() {
+                let got = model[off + k].replace(", ", ",").replace(" ", " ");
+                let got_norm = got.replace("[", "[").trim().to_string();
+                let w = want.trim().to_string();
+                // `[1] ok` vs `[1] ok`
+                // `mismatch`: the model stops where re-attach-then-close begins; only the first detach is compared
+                let same = if got_norm.ends_with("mismatch") { got_norm.split(']').next() == w.split(']').next() } else { got_norm.replace(' ', "") == w.replace(' ', "") };
+                if !same {
+                    if bad == 0 {
+                        report.finding(Finding { kind: "disagreement", key: "model-vs-implementation:link".into(), description: format!("{} -> implementation {} model {}", link_lines[k], w, got_norm), replay: json!({"property": "C13", "module": "life", "case": case.to_json(), "model_lines": [link_lines[k].clone()], "model": [got_norm]}) });
+                    }
+                    bad += 1;
+                }
+            }
+            report.count_n("cases_disagreeing_with_model", bad);
+        }
+        Err(e) => report.notes.push(format!("model driver failed: {}", e)),
     }
 }
